@@ -1,3 +1,7 @@
 # Table of checks (exec'd by vcheck).  check(id, source, flavour, lib, workers=(quick,thorough), wall=(quick,thorough) seconds)
 check("C08", "harness/c08_rbtree.cxx", lib=False, workers=(8, 16), wall=(20, 300),
       title="ordered-set utility stays a valid balanced search tree")
+check("C01", "harness/c01_types.cxx", workers=(8, 16), wall=(20, 600),
+      title="types are unified")
+check("C04", "harness/c04_names.cxx", workers=(8, 16), wall=(20, 600),
+      title="names and atoms are unified; single Identifier per spelling")
